@@ -201,14 +201,14 @@ func genC16Schemas(r *rng, o c16Opts) ast.Schemas {
 
 	if o.malformed {
 		for _, s := range schemas {
-			if r.chance(35) {
+			if r.chance(20) {
 				name := freshObjName(s, "Dangling")
 				s.AddObject(ast.NewObject(s.Package, name, ast.NewRef(pick(r, []string{s.Package, "nopkg"}), "Missing")))
 				if r.chance(50) {
 					s.AddObject(ast.NewObject(s.Package, freshObjName(s, "ToDangling"), ast.NewRef(s.Package, name)))
 				}
 			}
-			if r.chance(10) {
+			if r.chance(4) {
 				a, b := freshObjName(s, "CycA"), freshObjName(s, "CycB")
 				s.AddObject(ast.NewObject(s.Package, a, ast.NewRef(s.Package, b)))
 				s.AddObject(ast.NewObject(s.Package, b, ast.NewRef(s.Package, a)))
